@@ -347,6 +347,17 @@ func runC12(t *testing.T, e *worlds.Env, tier string) (bool, any) {
 				}
 				modelB.App = logical[consumeK:]
 			}
+			if mode == 1 && appLen > 0 && tp.Prob(1, 2, "sender-matcher") {
+				// the route with the proxy is entered through a matcher that needed data: what was
+				// prefetched for it belongs to the stream every upstream gets behind its header, on
+				// every attempt
+				need := tp.Pick("sender-need", 1, 5, 300, 2049)
+				if need > appLen {
+					need = appLen
+				}
+				sets = []layer4.MatcherSet{{&worlds.SpecMatcher{E: e, ID: "msend", Need: need, Mode: tp.Choose(4, "mode"), Yes: func([]byte) bool { return true }}}}
+				sample.Matcher = fmt.Sprintf("spec need=%d", need)
+			}
 			mk := HSpec{Kind: "vmark", Name: "P0"}
 			hs = append(hs, b.Handler(&mk, sig), h)
 		}
@@ -364,7 +375,7 @@ func runC12(t *testing.T, e *worlds.Env, tier string) (bool, any) {
 			sample.Layout = "handler ends its route"
 		}
 		plan.Chunks = e.MakeChunks(len(plan.App), 10*time.Millisecond)
-		if mode == 1 && consumeK == 0 && len(plan.Chunks) > 0 && tp.Prob(1, 4, "silent-start") {
+		if mode == 1 && consumeK == 0 && len(sets) == 0 && len(plan.Chunks) > 0 && tp.Prob(1, 4, "silent-start") {
 			// a client of a server-speaks-first protocol: silent for a while. The upstream must get
 			// the header when the connection is made, not when the client first writes
 			silentFor = 400 * time.Millisecond
